@@ -665,6 +665,15 @@ fn run_iter(src: &str) -> String {
             for s in n.iter_read_variable_identifiers_mut() {
                 s.insert(0, 'r');
             }
+            // between two rewrites: the immutable iterators list the names as they are at this moment
+            let mid = format!(
+                "{};{};{};{};{}",
+                j(n.iter_identifiers().map(hex).collect()),
+                j(n.iter_variable_identifiers().map(hex).collect()),
+                j(n.iter_read_variable_identifiers().map(hex).collect()),
+                j(n.iter_write_variable_identifiers().map(hex).collect()),
+                j(n.iter_function_identifiers().map(hex).collect())
+            );
             for s in n.iter_write_variable_identifiers_mut() {
                 s.insert(0, 'w');
             }
@@ -683,8 +692,8 @@ fn run_iter(src: &str) -> String {
                 j(n.iter_function_identifiers().map(hex).collect())
             );
             format!(
-                "OK ids[{}] vars[{}] reads[{}] writes[{}] fns[{}] nodes[{}] ops[{}] idsm[{}] varsm[{}] readsm[{}] writesm[{}] fnsm[{}] via<{}> adapt<{}> free<{}> after<{}> renamed{}",
-                a, b, c, d, e, nodes, ops, am, bm, cm, dm, em, others, adapt, free, after, tree_text(&n)
+                "OK ids[{}] vars[{}] reads[{}] writes[{}] fns[{}] nodes[{}] ops[{}] idsm[{}] varsm[{}] readsm[{}] writesm[{}] fnsm[{}] via<{}> adapt<{}> free<{}> mid<{}> after<{}> renamed{}",
+                a, b, c, d, e, nodes, ops, am, bm, cm, dm, em, others, adapt, free, mid, after, tree_text(&n)
             )
         },
     }
